@@ -33,6 +33,8 @@ Section DebugProofs.
   Local Notation resume := (resume C C_eqb C_default St Res fetch exec fault cur_contract pc_off script_empty empty_result).
   Local Notation drive_from := (drive_from C C_eqb C_default St Res fetch exec fault cur_contract pc_off script_empty empty_result).
   Local Notation drive := (drive C C_eqb C_default St Res fetch exec fault cur_contract pc_off script_empty empty_result).
+  Local Notation drive_before := (drive_before_22c6df9 C C_eqb C_default St Res fetch exec fault cur_contract pc_off script_empty empty_result).
+  Local Notation clear_last_state := (clear_last_state C Res).
   Local Notation plain_loop := (plain_loop St Res fetch exec fault).
   Local Notation plain_run := (plain_run St Res fetch exec fault script_empty empty_result).
   Local Notation arrivals := (arrivals St Res fetch exec).
@@ -182,19 +184,26 @@ Section DebugProofs.
   Qed.
 
   (* ---------------------------------------------------------------- the three statements *)
-  (* C32_same (+ the exact list of events): resuming after every event until completion yields
-     the result of the plain run; the reported events are exactly `expected`. *)
-  Theorem drive_exact (n : nat) (s : St) (r : Res) (d : dbg) :
+  (* the client loop started with an arbitrary debugger (any left-over last state) *)
+  Lemma drive_before_exact (n : nat) (s : St) (r : Res) (d : dbg) :
     plain_run n s = Some r ->
-    drive (S n) (S n) d s = (map ev_of (if script_empty then [] else expected d (arrivals n s)), Some r).
+    drive_before (S n) (S n) d s = (map ev_of (if script_empty then [] else expected d (arrivals n s)), Some r).
   Proof.
-    unfold DebugModel.plain_run, DebugModel.drive, DebugModel.run_program.
+    unfold DebugModel.plain_run, DebugModel.drive_before_22c6df9, DebugModel.run_program.
     destruct script_empty eqn:He; intro Hp.
     - injection Hp as <-. reflexivity.
     - pose proof (drive_main n s r He Hp d (S n) (S n) (S n)) as H.
       rewrite He in H. destruct (run_loop (S n) d s) as [d' o]. apply H; try lia.
       pose proof (arrivals_length n s). lia.
   Qed.
+
+  (* C32_same (+ the exact list of events): transact, then resuming after every event until
+     completion, yields the result of the plain run; the reported events are exactly `expected`
+     for the debugger with its last state forgotten. *)
+  Theorem drive_exact (n : nat) (s : St) (r : Res) (d : dbg) :
+    plain_run n s = Some r ->
+    drive (S n) (S n) d s = (map ev_of (if script_empty then [] else expected (clear_last_state d) (arrivals n s)), Some r).
+  Proof. intro H. exact (drive_before_exact n s r (clear_last_state d) H). Qed.
 
   Theorem drive_same_result (n : nat) (s : St) (r : Res) (d : dbg) :
     plain_run n s = Some r -> snd (drive (S n) (S n) d s) = Some r.
@@ -236,7 +245,7 @@ Section DebugProofs.
       + rewrite map_map. cbn [ev_of snd]. rewrite map_id. apply expected_sublist.
       + apply Forall_forall. intros e He. apply in_map_iff in He. destruct He as [x [<- Hx]].
         cbn [ev_of DebugModel.ev_of fst snd]. split; [reflexivity|].
-        apply (arrivals_fetch n s). apply (sublist_In _ _ (expected_sublist _ d)). exact Hx.
+        apply (arrivals_fetch n s). apply (sublist_In _ _ (expected_sublist _ (clear_last_state d))). exact Hx.
   Qed.
 
   (* with no stale last state the reported arrivals are exactly those the configuration asks for *)
@@ -255,12 +264,18 @@ Section DebugProofs.
     destruct (wants d s); reflexivity.
   Qed.
 
+  Lemma wants_clear (d : dbg) (x : St) : wants (clear_last_state d) x = wants d x.
+  Proof. reflexivity. Qed.
+
+  (* whatever an earlier session left behind, the reported arrivals are exactly those the
+     configuration asks for *)
   Theorem drive_events_fresh (n : nat) (s : St) (r : Res) (d : dbg) :
-    plain_run n s = Some r -> last_state C Res d = None -> script_empty = false ->
+    plain_run n s = Some r -> script_empty = false ->
     fst (drive (S n) (S n) d s) = map ev_of (filter (wants d) (arrivals n s)).
   Proof.
-    intros H Hn He. rewrite (drive_exact n s r d H). rewrite He. cbn [fst].
-    rewrite (expected_filter _ d Hn). reflexivity.
+    intros H He. rewrite (drive_exact n s r d H). rewrite He. cbn [fst].
+    rewrite (expected_filter _ (clear_last_state d) eq_refl).
+    rewrite (filter_ext _ _ (wants_clear d)). reflexivity.
   Qed.
 
   (* an inactive debugger reports nothing *)
@@ -268,9 +283,10 @@ Section DebugProofs.
     plain_run n s = Some r -> is_active C Res d = false -> fst (drive (S n) (S n) d s) = [].
   Proof.
     intros H Ha. rewrite (drive_exact n s r d H). cbn [fst]. destruct script_empty; [reflexivity|].
-    assert (forall l, expected d l = []) as E.
-    { induction l as [|x l IH]; cbn; [reflexivity|].
-      unfold DebugModel.triggers, DebugModel.wants, DebugModel.after. rewrite Ha. cbn. exact IH. }
+    assert (forall l, expected (clear_last_state d) l = []) as E.
+    { induction l as [|x l IH]; cbn [DebugModel.expected]; [reflexivity|].
+      unfold DebugModel.triggers, DebugModel.wants, DebugModel.after. cbn [is_active DebugModel.clear_last_state].
+      rewrite Ha. cbn. exact IH. }
     rewrite E. reflexivity.
   Qed.
 End DebugProofs.
@@ -285,6 +301,8 @@ Module SelfLoop.
       (if single then set_single_stepping N N (debugger_default) true else debugger_default).
   Definition go (d : debugger N N) :=
     drive N N.eqb 0 N N (fun _ => true) exec (fun s => s) (fun _ => None) (fun _ => 0) false (fun s => s) 5 5 d 0.
+  Definition go_before_22c6df9 (d : debugger N N) :=
+    drive_before_22c6df9 N N.eqb 0 N N (fun _ => true) exec (fun s => s) (fun _ => None) (fun _ => 0) false (fun s => s) 5 5 d 0.
 
   Example plain : plain_run N N (fun _ => true) exec (fun s => s) false (fun s => s) 4 0 = Some 3.
   Proof. reflexivity. Qed.
@@ -296,19 +314,21 @@ Module SelfLoop.
   Proof. vm_compute. reflexivity. Qed.
   Example other_breakpoint : go (cfg false [(0, 4); (7, 0)]) = ([], Some 3).
   Proof. vm_compute. reflexivity. Qed.
-  (* a stale last state (left by an abandoned debug session that stopped at the same location)
-     swallows the first event, and only the first *)
-  Example stale_last_state_swallows_first_event :
+  (* a last state left by an abandoned session at the same location no longer matters *)
+  Example stale_last_state_is_forgotten :
     go (set_last_state N N (cfg false [(0, 0)]) (PRunProgram N N (DBreakpoint N (0, 0))))
-    = ([((0,0),1); ((0,0),2); ((0,0),3)], Some 3).
+    = ([((0,0),0); ((0,0),1); ((0,0),2); ((0,0),3)], Some 3).
   Proof. vm_compute. reflexivity. Qed.
-  Lemma stale_last_state_witness :
+  (* HISTORICAL (code before repair 22c6df9, finding F9): without clear_last_state in init_inner the
+     stale last state swallowed the first event, and only the first *)
+  Lemma historical_stale_last_state_witness_before_22c6df9 :
     exists (d : debugger N N),
       last_state N N d <> None /\
-      fst (go d) <> fst (go (take_last_state N N d)) /\
-      snd (go d) = snd (go (take_last_state N N d)).
+      fst (go_before_22c6df9 d) <> fst (go_before_22c6df9 (take_last_state N N d)) /\
+      snd (go_before_22c6df9 d) = snd (go_before_22c6df9 (take_last_state N N d)) /\
+      go d = go (take_last_state N N d).
   Proof.
     exists (set_last_state N N (cfg false [(0, 0)]) (PRunProgram N N (DBreakpoint N (0, 0)))).
-    split; [discriminate|]. split; [vm_compute; discriminate|vm_compute; reflexivity].
+    split; [discriminate|]. split; [vm_compute; discriminate|]. split; vm_compute; reflexivity.
   Qed.
 End SelfLoop.
